@@ -37,11 +37,20 @@ DISTS = ["unstable", "stable", "experimental", "UNRELEASED", "stable-security", 
 URG = ["low", "medium", "high", "emergency", "critical", "HIGH", "Low", "Medium"]
 COMMENTS = ["(HIGH for users of diversions)", "(security)", "(a=b)", "because: reasons; more", "(é ü)", "x", "(#12345 fixed)"]
 KEYS = ["binary-only", "XS-Foo", "XC-Bar", "xb-baz", "Closes", "a", "x-v2", "Key"]
-VALS = ["yes", "no", "a b c", "x=y;z", "1.0-1", "é", "(v)", "#1", "v:w"]
+VALS = ["yes", "no", "a b c", "x=y;z", "1.0-1", "é", "(v)", "#1", "v:w", "e\u0301", "\ufb01", "\uff21", "a\u00a0b", "\u212b", "\u00c5", "x\u0100",
+        "y\u013f", "\ufeffv", "\U0001f600"]
 WORDS = ["fix", "the", "frobnicator", "Closes: #123456", "LP: #99", "naïve", "中文", "#", ":", "key: value", "a\tb",
          "-- Joe <j@x>  Mon, 01 Jan 2001 00:00:00 +0000", "(pkg) unstable; urgency=low", "[ Someone Else ]",
          "$Id$", "vim:", "/* c */", "ÀÉÎ", "ß", "𝔘", " ", "'quoted'", "\"dq\"", "\\", "%s", "{}", "--", "*", "+"]
-NAMES = ["Joe Hacker", "J. R. Hacker", "\"Quoted, Name\"", "Name [team]", "Zoë Müller", "x", "A <B> C", "名前", "O'Neil", "Sole",
+# character stress: text that is not NFC/NFKC-stable next to its precomposed twin, case-mapping hazards,
+# U+FEFF, joiners, soft hyphen, bidi marks, non-BMP, white-space look-alikes INSIDE tokens (at the ends of a
+# header value they would be stripped as white space, which deb-changelog does not define), lone combining mark
+CHAR_WORDS = ["e\u0301", "\u00e9", "A\u030a", "\u00c5", "\u212b", "\u2126", "\u03a9", "\uf9d0", "\ufb01", "fi", "\uff21",
+              "\u1112\u1161\u11ab", "\ud55c", "\u00df", "\u0130", "\u0131", "\u017f", "\u03c3\u03c2", "\U00010400",
+              "\ufeffbom", "mid\ufeffdle", "a\u200db", "a\u200cb", "so\u00adft", "\u200eltr\u200f", "\U0001f600", "\U0010ffff",
+              "a\u00a0b", "a\u2003b", "a\u3000b", "a\u200bb", "\u0301lone"]
+NAMES = ["Ange\u0301lique A\u030astro\u0308m", "Ang\u00e9lique \u00c5str\u00f6m", "\u212bngstr\u00f6m \u2126", "\u0130stanbul \u0131\u017f",
+         "Joe Hacker", "J. R. Hacker", "\"Quoted, Name\"", "Name [team]", "Zoë Müller", "x", "A <B> C", "名前", "O'Neil", "Sole",
          "Joe (work)", "Dr.-Ing. X"]
 MAILS = ["joe@example.org", "j.h+tag@sub.example.co.uk", "", "a@b", "first.last@例え.jp", "root@localhost"]
 DOW = ["Mon", "Tue", "Wed", "Thu", "Fri", "Sat", "Sun"]
@@ -149,9 +158,11 @@ def gen_change_text(rng, stress=False):
     if stress:
         return "  " + rng.choice(["* ", "", "  "]) + gen_text(rng, pick_len(rng, 1, 65537))
     n = rng.randint(1, 5)
-    body = " ".join(rng.choice(WORDS) for _ in range(n))
-    lead = rng.choice(["* ", "* ", "  ", "- ", "", "+ ", "\t", "    "])
-    s = "  " + lead + body + rng.choice(["", "", "", " ", "."])
+    body = " ".join(rng.choice(CHAR_WORDS if rng.random() < 0.3 else WORDS) for _ in range(n))
+    lead = rng.choice(["* ", "* ", "  ", "- ", "", "+ ", "\t", "    ", "\ufeff* "])
+    s = "  " + lead + body + rng.choice(["", "", "", " ", ".", "\t"])
+    if rng.random() < 0.25:          # line-final characters whose UTF-8 form ends in every byte 0x80 .. 0xBF
+        s += chr(0x100 + rng.randrange(64))
     if not s.strip():
         s += "x"
     return s
@@ -238,7 +249,10 @@ def conc_line(rng, cls, canonical=False, uid=None, empty_blank=False, stress=Fal
     if cls == "Change":
         if canonical:
             return "  * change" + ("" if uid is None else " %d" % uid), None
-        return gen_change_text(rng, stress), None
+        t = gen_change_text(rng, stress)
+        if not empty_blank and rng.random() < 0.15:
+            t = rng.choice(["\t\t", " \t", "\t ", "\t\t\t"]) + t[2:]
+        return t, None
     if cls in END:
         au, da = ("A B <a@b.c>", "Mon, 01 Jan 2001 10:00:00 +0000") if canonical else (gen_author(rng, stress), gen_date(rng, stress))
         return " -- %s%s%s" % (au, "  " if cls == "EndOK" else " ", da), (au, da)
@@ -284,7 +298,9 @@ def conc_line(rng, cls, canonical=False, uid=None, empty_blank=False, stress=Fal
             ["* unindented", " * one space only", "-- Joe <j@x>  Mon, 01 Jan 2001 10:00:00 +0000", "=====", "!!!",
              " -- Joe <j@x>   Mon, 01 Jan 2001 10:00:00 +0000", " -- Joe  Mon, 01 Jan 2001 10:00:00 +0000",
              " -- Joe <j@x>  yesterday", "(pkg) unstable; urgency=low", "- item", " --x",
-             "pkg (1.0 beta) unstable; urgency=low", " pkg (1.0) unstable; urgency=low", "? what is this", "#no space"])), None
+             "pkg (1.0 beta) unstable; urgency=low", " pkg (1.0) unstable; urgency=low", "? what is this", "#no space",
+             "\ufeffpkg (1.0-1) unstable; urgency=low", "\ufeff", "\u200b", "\ufeff -- A B <a@b>  Mon, 01 Jan 2001 10:00:00 +0000",
+             "\u0301 lone mark", "* e\u0301 vs \u00e9", "\U0001f600 \U0010ffff"])), None
     raise AssertionError(cls)
 
 
@@ -393,14 +409,75 @@ class Out(object):
     __slots__ = ("cl", "exc", "nwarn", "msgs")
 
 
-def construct(text, aea=False, strict=False):
+# The constructor documents its input as "str, list of str, or file-like ... or an iterator of lines such
+# as a filehandle (each line is either a str or unicode)", the type comment adds bytes and iterables of
+# bytes lines, the parser "supports both lists of lines without the trailing newline and those with";
+# parse_changelog() of an existing object takes the same.  These are the forms in which a text arrives:
+TEXT_FORMS = ("str", "bytes", "reuse_str")                      # the "empty changelog file" rule applies
+LINE_FORMS = ("stringio", "bytesio", "file", "list_nl", "list", "list_bytes", "iter", "tuple", "reuse_list", "reused_obj")
+FORMS = TEXT_FORMS + LINE_FORMS
+OTHER_TEXT = "other (0.1) unstable; urgency=low\n\n  * other\n\n -- O T <o@t>  Mon, 01 Jan 2001 10:00:00 +0000\n"
+
+
+def form_kind(form):
+    return "text" if form in TEXT_FORMS else "lines"
+
+
+def make_source(text, form):
+    import io
+    import tempfile
+    if form in ("str", "reuse_str"):
+        return text
+    if form == "bytes":
+        return text.encode("utf-8")
+    if form == "stringio":
+        return io.StringIO(text)
+    if form == "bytesio":
+        return io.BytesIO(text.encode("utf-8"))
+    if form == "file":
+        f = tempfile.TemporaryFile("w+", encoding="utf-8", newline="\n")
+        f.write(text)
+        f.seek(0)
+        return f
+    if form in ("list_nl", "reused_obj"):
+        return text.splitlines(True)
+    if form in ("list", "reuse_list"):
+        return text.split("\n")[:-1] if text.endswith("\n") else text.split("\n")
+    if form == "list_bytes":
+        return [l.encode("utf-8") for l in text.splitlines(True)]
+    if form == "iter":
+        return (l for l in text.splitlines(True))
+    if form == "tuple":
+        return tuple(text.split("\n")[:-1] if text.endswith("\n") else text.split("\n"))
+    raise AssertionError(form)
+
+
+def new_changelog(text, aea, strict, form="str"):
+    """the text handed to the real code in one of the documented forms (raises what the code raises)"""
     from debian.changelog import Changelog
+    src = make_source(text, form)
+    try:
+        if form.startswith("reuse"):
+            if form == "reused_obj":          # an object that already holds another changelog
+                cl = Changelog(OTHER_TEXT)
+                str(cl)
+            else:
+                cl = Changelog()
+            cl.parse_changelog(src, allow_empty_author=aea, strict=strict)
+            return cl
+        return Changelog(src, allow_empty_author=aea, strict=strict)
+    finally:
+        if form == "file":
+            src.close()
+
+
+def construct(text, aea=False, strict=False, form="str"):
     o = Out()
     o.cl, o.exc, o.msgs = None, None, []
     with warnings.catch_warnings(record=True) as w:
         warnings.simplefilter("always")
         try:
-            o.cl = Changelog(text, allow_empty_author=aea, strict=strict)
+            o.cl = new_changelog(text, aea, strict, form)
         except Exception as e:          # observation
             o.exc = type(e).__name__
     o.msgs = [str(x.message) for x in w]
@@ -464,7 +541,7 @@ def fixpoint(cl, s, aea=None):
     return None
 
 
-def repeat_laws(text, aea, rng):
+def repeat_laws(text, aea, rng, form="str"):
     """the same text parsed repeatedly, strict and lenient alternating, both allow_empty_author values,
     in a random order: every lenient parse with the same setting must emit the same number of warnings
     and build the same blocks, every strict parse must have the same outcome, and strict raises exactly
@@ -472,8 +549,9 @@ def repeat_laws(text, aea, rng):
     plan = [(a, st) for a in (aea, not aea) for st in (False, True)] * 2
     rng.shuffle(plan)
     seen = {}
+    kind = form_kind(form)
     for a, st in plan[:rng.choice([4, 6, 8])]:
-        o = construct(text, aea=a, strict=st)
+        o = construct(text, aea=a, strict=st, form=rng.choice(TEXT_FORMS if kind == "text" else LINE_FORMS))
         if st:
             obs = o.exc
             if o.exc not in (None, "ChangelogParseError"):
@@ -493,16 +571,16 @@ def repeat_laws(text, aea, rng):
     return None
 
 
-def c15_laws(text, aea, rng=None):
+def c15_laws(text, aea, rng=None, form="str"):
     """the verdict observables of C15 for one text: -> (message or None, info dict).  rng: sometimes the
     strict parse comes first, sometimes the whole protocol is repeated in random order"""
     if rng is not None and rng.random() < 0.5:
-        construct(text, aea=aea, strict=True)
-    len_ = construct(text, aea=aea, strict=False)
+        construct(text, aea=aea, strict=True, form=form)
+    len_ = construct(text, aea=aea, strict=False, form=form)
     info = dict(nwarn=len_.nwarn, fmt=None, nb=None)
     if len_.exc:
         return "lenient constructor raised %s" % len_.exc, info
-    st = construct(text, aea=aea, strict=True)
+    st = construct(text, aea=aea, strict=True, form=form)
     info["strict"] = st.exc
     if st.exc not in (None, "ChangelogParseError"):
         return "strict constructor raised %s (only ChangelogParseError is allowed)" % st.exc, info
@@ -520,7 +598,7 @@ def c15_laws(text, aea, rng=None):
     info["str"] = s
     msg = fixpoint(len_.cl, s, aea)
     if msg is None and rng is not None and rng.random() < 0.15:
-        msg = repeat_laws(text, aea, rng)
+        msg = repeat_laws(text, aea, rng, form)
     return msg, info
 
 
@@ -531,24 +609,54 @@ def shape_of(cl):
 
 # ------------------------------------------------------------------ C04 verdict for one concretized case
 
-def c04_check(lines, contents, struct, alive=None):
+def mutate_handouts(cl, k=0):
+    """edit IN PLACE the objects the API hands out as values of their own: the Version objects of
+    block.version / cl.version / cl.get_version() / cl.versions, the cl.versions list itself"""
+    def bump(v, j):
+        if v is None:
+            return
+        if (j + k) % 3 == 0 and v.debian_revision:
+            v.debian_revision = str(v.debian_revision) + "1"
+        elif (j + k) % 3 == 1:
+            v.upstream_version = str(v.upstream_version) + ".1"
+        else:
+            v.epoch = "9"
+    try:
+        for j, b in enumerate(cl):
+            bump(b.version, j)
+        if len(cl):
+            bump(cl.version, 1)
+            bump(cl.get_version(), 2)
+        vs = cl.versions
+        for j, v in enumerate(vs):
+            bump(v, j + 1)
+        del vs[:]
+        for j, v in enumerate(cl.get_versions()):
+            bump(v, j + 2)
+    except Exception as e:
+        return "editing a handed-out Version object raised %s: %s" % (type(e).__name__, e)
+    return None
+
+
+def c04_check(lines, contents, struct, alive=None, form="str", mutate=None):
     """lines/contents: the concretized well-formed text; struct: the block structure TLC computed
-    (which line is which block's header / change line / trailer).  -> None or a message"""
-    from debian.changelog import Changelog
+    (which line is which block's header / change line / trailer); form: how the text is handed over;
+    mutate (an int): afterwards the handed-out Version objects are edited in place and the same text is
+    parsed again (another form) and must expose what is written.  -> None or a message"""
     from debian.debian_support import Version
     text = join(lines)
     try:
         with warnings.catch_warnings():
             warnings.simplefilter("error")
-            cl = Changelog(text, strict=True)
+            cl = new_changelog(text, False, True, form)
     except Exception as e:
-        return "strict parsing failed: %s: %s" % (type(e).__name__, e)
+        return "strict parsing failed (input form %s): %s: %s" % (form, type(e).__name__, e)
     s, err = fmt(cl)
     if s != text:
         if s is None:
             return "str() failed: %s" % err
         i = next((i for i in range(min(len(s), len(text))) if s[i] != text[i]), min(len(s), len(text)))
-        return "str() differs from the text at offset %d: %r vs %r" % (i, s[max(0, i - 20):i + 30], text[max(0, i - 20):i + 30])
+        return "str() differs from the text at offset %d (input form %s): %r vs %r" % (i, form, s[max(0, i - 20):i + 30], text[max(0, i - 20):i + 30])
     if alive is not None:
         alive.add(cl, "%d lines" % len(lines))
     blocks = list(cl)
@@ -572,13 +680,21 @@ def c04_check(lines, contents, struct, alive=None):
                 return "block %d: %s is %r, written %r" % (n, k, got[k], want[k])
         if not veq:
             return "block %d: version object differs from Version(%r)" % (n, h["ver"])
+    if mutate is not None:
+        m = mutate_handouts(cl, mutate)
+        if m:
+            return m
+        m = c04_check(lines, contents, struct, form=FORMS[mutate % len(FORMS)])
+        if m:
+            return "after Version objects handed out by an earlier parse of the same text were edited in place: " + m
     return None
 
 
 # ------------------------------------------------------------------ editing calls on the real object
 
 EDIT_OPS = ("NewBlockFull", "NewBlockEmpty", "AddBlank", "AddChange", "SetPackage", "SetVersion",
-            "SetDistributions", "SetUrgency", "SetAuthor", "SetDate")
+            "SetDistributions", "SetUrgency", "SetAuthor", "SetDate", "SetVersionWS")
+WS_AROUND = ["%s\n", "%s ", "%s\t", "%s\r\n", "%s\n\n", " %s", "\n%s", "%s\u00a0", "%s\x0b", "\ufeff%s"]
 
 
 def conc_edit(rng, op, canonical=False, uid=0):
@@ -601,6 +717,8 @@ def conc_edit(rng, op, canonical=False, uid=0):
         return "setpkg" if canonical else gen_package(rng)
     if op == "SetVersion":
         return "3.0-1" if canonical else gen_version(rng)
+    if op == "SetVersionWS":
+        return (WS_AROUND[0] if canonical else rng.choice(WS_AROUND)) % ("3.0-1" if canonical else gen_version(rng))
     if op == "SetDistributions":
         return "stable" if canonical else gen_dists(rng)
     if op == "SetUrgency":
@@ -632,6 +750,16 @@ def apply_edit(cl, op, arg, how=0):
                 cl.set_version(Version(arg))
             else:
                 cl.set_version(arg)
+        elif op == "SetVersionWS":          # only through the validating Changelog-level setter
+            try:
+                if how % 3 == 0:
+                    cl.version = arg
+                elif how % 3 == 1:
+                    cl.set_version(Version(arg))
+                else:
+                    cl.set_version(arg)
+            except ValueError:
+                return None                    # rejected: the documented outcome for such a value
         elif op == "SetDistributions":
             if how % 2:
                 cl.set_distributions(arg)
@@ -689,7 +817,7 @@ def conc_hist_arg(rng, op, canonical=False, uid=0, stress=False):
             c.update(pkg="newpkg", ver="2.0-%d" % uid)
         au, da = ("N B <n@b.c>", "Tue, 02 Jan 2001 10:00:00 +0000") if canonical else (gen_author(rng, stress), gen_date(rng, stress))
         return dict(package=c["pkg"], version=c["ver"], distributions=c["dists"], urgency=c["urg"], author=au, date=da)
-    if name == "ChDelete":
+    if name in ("ChDelete", "MutVer"):
         return None
     raise AssertionError(op)
 
@@ -748,6 +876,15 @@ def apply_hist(cl, op, arg, how=0):
                 del b.changes()[x - 1]
             elif name == "AddTrailing":
                 b.add_trailing_line(arg)
+            elif name == "MutVer":
+                acc = how % 5
+                v = (cl.version if i == 1 and acc == 1 else cl.get_version() if i == 1 and acc == 2 else
+                     cl.versions[i - 1] if acc == 3 else cl.get_versions()[i - 1] if acc == 4 else b.version)
+                if v is not None:
+                    if v.debian_revision and how % 2:
+                        v.debian_revision = str(v.debian_revision) + "1"
+                    else:
+                        v.upstream_version = str(v.upstream_version) + ".1"
             else:
                 raise AssertionError(op)
     except AssertionError:
@@ -757,41 +894,68 @@ def apply_hist(cl, op, arg, how=0):
     return None, None
 
 
-def expected_text(out, lines, contents, ops, args):
-    """concretization of the reference Format that TLC computed for the CURRENT document: `out` is its
-    line-token sequence [c, id, h]; tokens are positions in the parsed text (what the generator wrote
-    there) or 400 + 10 k + j / 200 + k (argument of call k).  Headers and trailers are written with the
-    generator's own grammar functions."""
-    def val(tok, field):
+class Tok(object):
+    """what the tokens of a TLC formatting history stand for: a position in the parsed text (what the
+    generator wrote there) or 400 + 10 k + j / 200 + k (argument of call k)"""
+
+    def __init__(self, lines, contents, ops, args):
+        self.lines, self.contents, self.ops, self.args = lines, contents, ops, args
+
+    def val(self, tok, field):
         if tok >= 400:
             k, j = divmod(tok - 400, 10)
-            a = args[k]
-            if ops[k][0] == "NewBlockFull":
+            a = self.args[k]
+            if self.ops[k][0] == "NewBlockFull":
                 return a[{0: "package", 1: "version", 2: "distributions", 3: "urgency", 5: "author", 6: "date"}[j]]
             return a
         if tok == -1:
             return {"urg": "unknown"}.get(field)
-        c = contents[tok - 1]
+        if tok == 0:
+            return None
+        c = self.contents[tok - 1]
         if field in ("au", "da"):
             return c[0 if field == "au" else 1]
         return c[field]
+
+    def rest(self, h):
+        if h[4] == -1:
+            comment, pairs = "", []
+        else:
+            comment, pairs = self.contents[h[4] - 1]["comment"], [tuple(p) for p in self.contents[h[4] - 1]["pairs"]]
+        for tok in h[5:]:
+            pairs.append(tuple(self.val(tok, None)))
+        return comment, pairs
+
+    def line(self, i):
+        return "" if i == 300 else self.args[i - 200] if i >= 200 else self.lines[i - 1]
+
+
+def expected_text(out, tok):
+    """concretization of the reference Format that TLC computed for the CURRENT document: `out` is its
+    line-token sequence [c, id, h].  Headers and trailers are written with the generator's own grammar
+    functions."""
     res = []
     for ln in out:
         c, h = ln["c"], ln["h"]
         if c in TOP:
-            if h[4] == -1:
-                comment, pairs = "", []
-            else:
-                comment, pairs = contents[h[4] - 1]["comment"], list(contents[h[4] - 1]["pairs"])
-            for tok in h[5:]:
-                pairs.append(tuple(val(tok, None)))
-            res.append(header(val(h[0], "pkg"), val(h[1], "ver"), val(h[2], "dists"), val(h[3], "urg"), comment, pairs))
+            comment, pairs = tok.rest(h)
+            res.append(header(tok.val(h[0], "pkg"), tok.val(h[1], "ver"), tok.val(h[2], "dists"), tok.val(h[3], "urg"), comment, pairs))
         elif c in END and ln["id"] == 0:
-            res.append(" -- %s%s%s" % (val(h[0], "au"), "  " if c == "EndOK" else " ", val(h[1], "da")))
+            res.append(" -- %s%s%s" % (tok.val(h[0], "au"), "  " if c == "EndOK" else " ", tok.val(h[1], "da")))
         else:
-            i = ln["id"]
-            res.append("" if i == 300 else args[i - 200] if i >= 200 else lines[i - 1])
+            res.append(tok.line(ln["id"]))
     return res
+
+
+def expected_fields(doc, tok):
+    """what the blocks of the CURRENT document (TLC's structure) must expose"""
+    out = []
+    for b in doc["bl"]:
+        h = b["h"]
+        comment, pairs = tok.rest(h)
+        out.append((tok.val(h[0], "pkg"), tok.val(h[1], "ver"), tok.val(h[2], "dists"), tok.val(h[3], "urg"), comment, pairs,
+                    [tok.line(i) for i in b["ch"]], tok.val(b["au"], "au"), tok.val(b["da"], "da")))
+    return out
 
 
 def fields_of(cl):
@@ -811,7 +975,7 @@ def run_hist(rec, c04=True):
     try:
         with warnings.catch_warnings():
             warnings.simplefilter("error")
-            cl = Changelog(text, strict=True, allow_empty_author=rec["aea"])
+            cl = new_changelog(text, rec["aea"], True, rec.get("form", "str"))
     except Exception as e:
         return "strict parsing failed: %s: %s" % (type(e).__name__, e)
     last = None
@@ -826,7 +990,8 @@ def run_hist(rec, c04=True):
             return "str() raised %s" % err[4:]
     if last is None:
         return "formatting failed (ChangelogCreateError) although every block is complete"
-    want = expected_text(rec["out"], rec["lines"], rec["contents"], rec["ops"], rec["args"])
+    tok = Tok(rec["lines"], rec["contents"], rec["ops"], rec["args"])
+    want = expected_text(rec["out"], tok)
     what = rec["what"]
     want_text = join(want + (tail if what == 0 else []))
     if last != want_text:
@@ -847,6 +1012,28 @@ def run_hist(rec, c04=True):
                 return "strict parsing of the formatted text failed: %s: %s" % (type(e).__name__, e)
             if fields_of(ref) != fields_of(cl):
                 return "the blocks of the edited changelog and of a fresh parse of its text expose different data"
+    if c04 and rec.get("doc"):
+        # what the edited object exposes is what was written / assigned (TLC's current document); the version
+        # of a block whose own handed-out Version object was edited in place is not judged
+        got = fields_of(cl)[:len(rec["doc"]["bl"])]
+        exp = expected_fields(rec["doc"], tok)
+        names = ("package", "version", "distributions", "urgency", "urgency_comment", "other_pairs", "changes", "author", "date")
+        for n, (g, e) in enumerate(zip(got, exp)):
+            for j, nm in enumerate(names):
+                if nm == "version" and (n + 1) in rec.get("mut", []):
+                    continue
+                if g[j] != e[j]:
+                    return "after %s block %d exposes %s = %r, the current document says %r" % (
+                        [o[0] + (str(o[1]) if o[1] else "") for o in rec["ops"]], n, nm, g[j], e[j])
+        # a NEW parse of the original text exposes what is written there, whatever was done to objects
+        # handed out before
+        base = rec["base"]
+        if tail:
+            base = {"ini": base["ini"], "bl": base["bl"] + rec["tail_bl"]}
+        m = c04_check(rec["lines"] + tail, rec["contents"] + rec.get("tail_contents", []), base,
+                      form=FORMS[(len(rec["lines"]) + len(rec["ops"])) % len(FORMS)])
+        if m:
+            return "fresh parse of the original text after the history %s: %s" % ([o[0] for o in rec["ops"]], m)
     return None
 
 
@@ -892,7 +1079,19 @@ def stress_case(rng, classes, struct, mode, big=False):
     return lines, contents, out
 
 
-HIST_NEG = [("BlockRenderCache", {"FormatIsCurrent"}), ("OlderBlocksMemo", {"FormatIsCurrent"})]
+HIST_NEG = [("BlockRenderCache", {"FormatIsCurrent"}), ("OlderBlocksMemo", {"FormatIsCurrent"}), ("InternedVersions", {"ExposedAsWritten"})]
+
+
+def norm_contents(contents):
+    """contents as they come back from a replay file (JSON): tuples again"""
+    out = []
+    for c in contents:
+        if isinstance(c, dict):
+            c = dict(c, pairs=[tuple(p) for p in c["pairs"]])
+        elif isinstance(c, list):
+            c = tuple(c)
+        out.append(c)
+    return out
 
 
 def hist_cfg(edits=3, sep=1, lines=5, bug="none", emit=True):
@@ -913,6 +1112,7 @@ SPECIFICATION Spec
 INVARIANT BookkeepingOK
 INVARIANT HistFormattable
 INVARIANT FormatIsCurrent
+INVARIANT ExposedAsWritten
 %s
 CHECK_DEADLOCK FALSE
 """ % (lines, sep, edits, bug, "TRUE" if emit else "FALSE", "INVARIANT NormalFormHist\nINVARIANT EmitHist" if emit else "")
@@ -933,14 +1133,19 @@ def replay_hist_cases(ctx, rng, cases, c04, nconc, nstress, alive=None):
         for vi, (kind, stress) in enumerate(variants):
             lines, contents = conc_text(rng, c["t"], canonical=(kind == "canonical"), empty_blank=True, stress=stress)
             args = [conc_hist_arg(rng, op, canonical=(kind == "canonical"), uid=k, stress=stress) for k, op in enumerate(c["ops"])]
-            tail = []
+            tail, tail_contents, tail_bl = [], [], []
             if stress:
                 nt = rng.choice([99, 100, 101, 255, 256, 257, 1000])
                 for _ in range(nt):
-                    tl, _c = conc_text(rng, ["TopOK", "Blank", "Change", "Blank", "EndOK", "Blank"], empty_blank=True)
+                    tl, tc = conc_text(rng, ["TopOK", "Blank", "Change", "Blank", "EndOK", "Blank"], empty_blank=True)
+                    o = len(lines) + len(tail)
+                    tail_bl.append({"h": [o + 1] * 5, "ch": [o + 2, o + 3, o + 4], "au": o + 5, "da": o + 5, "tr": [o + 6]})
                     tail += tl
+                    tail_contents += tc
             rec = dict(kind="hist", lines=lines, contents=contents, aea=c["aea"], ops=c["ops"], args=args,
-                       hows=[rng.randrange(6) for _ in c["ops"]], out=c["out"], what=c["what"], tail=tail)
+                       hows=[rng.randrange(30) for _ in c["ops"]], out=c["out"], what=c["what"], tail=tail,
+                       tail_contents=tail_contents, tail_bl=tail_bl, doc=c["doc"], base=c["base"], mut=c["mut"],
+                       form=FORMS[(ci + vi) % len(FORMS)])
             msg = run_hist(rec, c04=c04)
             ctx.case_seen(("hist", tuple(c["t"]), json_key(c["ops"])), len(c["ops"]) > 1)
             n += 1
@@ -1034,15 +1239,16 @@ def line_event(it, line):
 NO_DOC = dict(has=False)
 
 
-def record_parse_trace(lines, aea, wf, doc_every=0):
-    """prefix closure: the real parser's observable result for every prefix of the text"""
+def record_parse_trace(lines, aea, wf, doc_every=0, form="str"):
+    """prefix closure: the real parser's observable result for every prefix of the text, handed over in
+    the given input form"""
     it = Intern()
     evs = []
     for i in range(1, len(lines) + 1):
         text = join(lines[:i])
         e = line_event(it, lines[i - 1])
-        len_ = construct(text, aea=aea, strict=False)
-        st = construct(text, aea=aea, strict=True)
+        len_ = construct(text, aea=aea, strict=False, form=form)
+        st = construct(text, aea=aea, strict=True, form=form)
         e["ok"] = len_.exc is None and st.exc in (None, "ChangelogParseError")
         e["sr"] = st.exc == "ChangelogParseError"
         e["w"] = len_.nwarn
@@ -1064,14 +1270,14 @@ def record_parse_trace(lines, aea, wf, doc_every=0):
                 e["rt"] = s == text
                 e["nf"] = fixpoint(cl, s) is None
         evs.append(e)
-    return dict(kind="parse", aea=aea, wf=wf, lines=evs, text=list(lines))
+    return dict(kind="parse", aea=aea, wf=wf, form=form_kind(form), lines=evs, text=list(lines), iform=form)
 
 
-def _start(lines, aea):
+def _start(lines, aea, form="str"):
     from debian.changelog import Changelog
     if not lines:
         return Changelog()
-    o = construct(join(lines), aea=aea)
+    o = construct(join(lines), aea=aea, form=form)
     return None if o.exc else o.cl
 
 
@@ -1082,10 +1288,15 @@ def gen_call(rng, cl, wf, stress=False):
     n = len(cl)
     names = ["NewBlockFull"] + ([] if wf else ["NewBlockEmpty"])
     if n:
-        names += ["AddBlank", "AddChange", "SetPackage", "SetVersion", "SetDistributions", "SetUrgency", "SetAuthor", "SetDate"]
-        names += ["BSet", "BSet", "BSet", "BRest", "BRest", "ChAppend", "ChInsert", "ChDelete", "AddTrailing", "AddTrailing", "Fmt"]
+        names += ["AddBlank", "AddChange", "SetPackage", "SetVersion", "SetDistributions", "SetUrgency", "SetAuthor", "SetDate", "SetVersionWS"]
+        names += ["BSet", "BSet", "BSet", "BRest", "BRest", "ChAppend", "ChInsert", "ChDelete", "AddTrailing", "AddTrailing", "Fmt",
+                  "MutVer", "MutVer", "Reparse"]
+    else:
+        names = [x for x in names if x != "SetVersionWS"]
     op = rng.choice(names)
     i = x = 0
+    if op == "Reparse":
+        return dict(op=op, i=0, x=0, arg=rng.choice(FORMS), how=0, fobs=False, fhow=0)
     if op in EDIT_OPS:
         arg = conc_edit(rng, op)
         if wf and op == "AddBlank":
@@ -1110,11 +1321,17 @@ def gen_call(rng, cl, wf, stress=False):
     return dict(op=op, i=i, x=x, arg=arg, how=rng.randrange(6), fobs=(op == "Fmt" or rng.random() < 0.6), fhow=rng.randrange(3))
 
 
-def call_event(it, cl, c):
+def call_event(it, cl, c, text=None, aea=False):
     """perform one call on the real object and describe it for TLC"""
     op, i, x, arg = c["op"], c["i"], c["x"], c["arg"]
     out_text = None
-    if op in EDIT_OPS:
+    rp = []
+    if op == "Reparse":
+        o = construct(text, aea=aea, form=arg)
+        err = ("EXC:" + o.exc) if o.exc else None
+        if o.cl is not None:
+            rp = proj_blocks(it, o.cl)
+    elif op in EDIT_OPS:
         err = apply_edit(cl, op, arg, c["how"])
     else:
         err, out_text = apply_hist(cl, ["BPair" if op == "BRest" else op, i, x], arg, c["how"])
@@ -1126,15 +1343,18 @@ def call_event(it, cl, c):
     elif op == "BRest":
         b = cl[i - 1]
         v = [it.rest(b.urgency_comment, list(b.other_pairs.items()))]       # other_pairs as the object shows them now
-    elif op in ("Fmt", "ChDelete"):
+    elif op in ("Fmt", "ChDelete", "MutVer", "Reparse"):
         v = [0]
+    elif op == "SetVersionWS":
+        shown = ver_str(cl[0])
+        v = [0 if shown is None or shown != arg else it(shown)]      # 0: rejected (the block shows what it showed before)
     elif op in ("ChAppend", "ChInsert"):
         v = [it(arg), 1 if arg == "" else 0]       # by construction '' or a change line
     elif op == "BSet":
         v = [it.urg(arg) if x == 4 else it(arg)]
     else:
         v = [it.urg(arg) if op == "SetUrgency" else it(arg)]
-    e = dict(op=op, i=i, x=x, v=v, ok=err is None, fobs=bool(c["fobs"]), fmt=False, nf=True, out=[], bl=[])
+    e = dict(op=op, i=i, x=x, v=v, ok=err is None, fobs=bool(c["fobs"]), fmt=False, nf=True, out=[], bl=[], rp=rp)
     if err is None:
         if c["fobs"]:
             tgt = i if op == "Fmt" else 0
@@ -1155,41 +1375,43 @@ def call_event(it, cl, c):
     return e
 
 
-def record_edit_trace(rng, lines, aea, nops, wf=False, stress=False):
+def record_edit_trace(rng, lines, aea, nops, wf=False, stress=False, form="str"):
     """parse `lines`, then nops random calls (gen_call); formatting is part of the history: after a
     call the changelog is formatted (str / bytes / write_to_open_file) only when the call says so"""
     it = Intern()
     evs = [line_event(it, l) for l in lines]
-    cl = _start(lines, aea)
+    cl = _start(lines, aea, form)
     if cl is None:
         return None
-    t = dict(kind="edit", aea=aea, wf=wf, lines=evs, bl0=proj_blocks(it, cl), ops=[], text=list(lines), calls=[])
+    t = dict(kind="edit", aea=aea, wf=wf, lines=evs, bl0=proj_blocks(it, cl), ops=[], text=list(lines), calls=[], iform=form)
     for k in range(nops):
         c = gen_call(rng, cl, wf, stress)
+        if c["op"] == "Reparse" and not lines:
+            continue
         t["calls"].append(c)
-        t["ops"].append(call_event(it, cl, c))
+        t["ops"].append(call_event(it, cl, c, join(lines), aea))
     return t
 
 
 def rerecord(trace):
     """re-execute a recorded trace on the current tree (for --replay)"""
     if trace["kind"] == "parse":
-        return record_parse_trace(trace["text"], trace["aea"], trace["wf"])
+        return record_parse_trace(trace["text"], trace["aea"], trace["wf"], form=trace.get("iform", "str"))
     it = Intern()
     lines = trace["text"]
     evs = [line_event(it, l) for l in lines]
-    cl = _start(lines, trace["aea"])
+    cl = _start(lines, trace["aea"], trace.get("iform", "str"))
     if cl is None:
         return None
     t = dict(kind="edit", aea=trace["aea"], wf=trace.get("wf", False), lines=evs, bl0=proj_blocks(it, cl), ops=[], text=lines, calls=trace["calls"])
     for c in trace["calls"]:
-        t["ops"].append(call_event(it, cl, c))
+        t["ops"].append(call_event(it, cl, c, join(lines), trace["aea"]))
     return t
 
 
 def strip_trace(t):
     """what TLC gets (concrete text and call arguments stay in the harness)"""
-    return {k: v for k, v in t.items() if k not in ("text", "calls")}
+    return {k: v for k, v in t.items() if k not in ("text", "calls", "iform")}
 
 
 # ------------------------------------------------------------------ text generators for the recorders
@@ -1320,7 +1542,7 @@ def golden_traces():
              ev("Blank", 6, [], True, 1, [3], [0]),
              ev("EndOK", 8, [9, 10], False, 0, [3], [0]),
              ev("Blank", 6, [], False, 0, [3], [1], final)]
-    parse = dict(kind="parse", aea=False, wf=True, lines=lines)
+    parse = dict(kind="parse", aea=False, wf=True, form="text", lines=lines)
     old = dict(h=[2, 3, 4, 5], ch=[6, 7, 11, 6], au=9, da=10)
     new = dict(h=[12, 13, 14, 15], ch=[], au=16, da=17)
 
@@ -1331,7 +1553,7 @@ def golden_traces():
     outb = [hd, L(19), L(6), L(7), L(11), L(6), tl, L(6)]               # str(block 2) after an in-place insert
 
     def op(name, v, bl, i=0, x=0, fobs=False, out=()):
-        return dict(op=name, i=i, x=x, v=v, ok=True, fobs=fobs, fmt=fobs, nf=True, out=list(out), bl=bl)
+        return dict(op=name, i=i, x=x, v=v, ok=True, fobs=fobs, fmt=fobs, nf=True, out=list(out), bl=bl, rp=[])
     old2 = dict(old, ch=[19, 6, 7, 11, 6])
     edit = dict(kind="edit", aea=False, wf=True, lines=[dict(c=e["c"], v=e["v"], h=list(e["h"])) for e in lines],
                 bl0=[dict(h=[2, 3, 4, 5], ch=[6, 7, 6], au=9, da=10)],
